@@ -216,6 +216,14 @@ Definition balancer_ok (c : cfg) (w : world) (rest : list (list Z)) : bool :=
   let want := if c_tot c <=? idle + inuse then 0 else Z.max 0 (c_min c - idle) in
   shrink_ok && (len (block_preheats rest []) =? want).
 
+Fixpoint next_dispose (i : Z) (rest : list (list Z)) : option (Z * Z * Z) :=
+  match rest with
+  | [] => None
+  | (99 :: _) :: _ => None
+  | (21 :: j :: n :: ret :: whole :: _) :: t => if j =? i then Some (n, ret, whole) else next_dispose i t
+  | _ :: t => next_dispose i t
+  end.
+
 Definition rec_step (c : cfg) (rest : list (list Z)) (w : world) (r : list Z) : world :=
   match r with
   | 1 :: rid :: pod :: pin :: pre :: _ =>
@@ -231,11 +239,21 @@ Definition rec_step (c : cfg) (rest : list (list Z)) (w : world) (r : list Z) : 
   | 7 :: i :: fam :: _ :: removed :: _ =>
       if removed =? 0 then w else app w i (LRemoteRemove (if fam =? 6 then F6 else F4) removed) 7
   | 8 :: _ => w
+  | 9 :: _ => w          (* a Dispose is armed to race with the next attempt: the Dispose itself is record 21 *)
   | 10 :: rid :: ok :: eni :: a4 :: a6 :: o4 :: o6 :: _ =>
       match find_req (w_slots w) 1 rid with
       | Some (i, q) =>
           if r_fin q then w
-          else if r_direct q then app w i (LCommit rid ((ok =? 1) || negb (o4 =? 0) || negb (o6 =? 0))) 10
+          else if r_direct q then
+            let delivered := (ok =? 1) || negb (o4 =? 0) || negb (o6 =? 0) in
+            let w_now := app w i (LCommit rid delivered) 10 in
+            (* the caller of a cancelled direct request returns before the goroutine that rolls the hand-out back has
+               run; a Dispose observed on that interface later in this block saw the addresses either still held or
+               already given back: its return value tells which, and the roll-back is then left to the block's end *)
+            if delivered then w_now
+            else match next_dispose i rest, slot_at w_now i with
+                 | Some (n, ret, whole), Some s_rb => if ret =? dispose_ret s_rb n (dec_bool whole) then w_now else w
+                 | _, _ => w_now end
           else if ok =? 1 then app w i (LWorkerTake rid a4 a6 true) 10
           else if negb (o4 =? 0) || negb (o6 =? 0) then app w i (LWorkerTake rid o4 o6 true) 10
           else app w i (LWorkerCancel rid) 10
